@@ -143,7 +143,7 @@ func (c *Ctx) Note(k string, v interface{}) { c.res.Notes[k] = v }
 
 // Sample keeps a few example cases.
 func (c *Ctx) Sample(s interface{}) {
-	if len(c.res.Samples) < 6 {
+	if len(c.res.Samples) < 3 {
 		c.res.Samples = append(c.res.Samples, s)
 	}
 }
@@ -428,7 +428,7 @@ func merge(t, r *ShardResult) {
 		t.Notes[k] = v
 	}
 	for _, s := range r.Samples {
-		if len(t.Samples) < 8 {
+		if len(t.Samples) < 10 {
 			t.Samples = append(t.Samples, s)
 		}
 	}
